@@ -44,17 +44,18 @@ func workDir() string {
 // scratchRoot is where workers create per-run directories: tmpfs when
 // available (fsync is free there), else the work directory.
 func scratchRoot() string {
+	sub := fmt.Sprintf("p%d", os.Getpid()) // one scratch tree per driver process: concurrent checks do not disturb each other
 	if w := os.Getenv("VERIF_WORK"); w != "" {
-		return w
+		return filepath.Join(w, sub)
 	}
 	shm := "/dev/shm"
 	if fi, err := os.Stat(shm); err == nil && fi.IsDir() {
-		d := filepath.Join(shm, fmt.Sprintf("verif-scratch-%d", os.Getuid()))
+		d := filepath.Join(shm, fmt.Sprintf("verif-scratch-%d", os.Getuid()), sub)
 		if os.MkdirAll(d, 0755) == nil {
 			return d
 		}
 	}
-	return workDir()
+	return filepath.Join(workDir(), "scratch", sub)
 }
 
 func die2(format string, a ...interface{}) {
@@ -427,7 +428,8 @@ func cmdCheck(args []string) {
 	cdir := filepath.Join(workDir(), "check", id)
 	os.RemoveAll(cdir)
 	os.MkdirAll(cdir, 0755)
-	os.RemoveAll(filepath.Join(scratchRoot(), "run"))
+	os.RemoveAll(scratchRoot())
+	defer os.RemoveAll(scratchRoot())
 	var chunks []chunk
 	for _, v := range pc.Variants {
 		for from := 0; from < n; from += pc.Chunk {
